@@ -195,7 +195,7 @@ func init() {
 	}
 
 	registry["C15"] = &Check{
-		Rule: "two real systems on loopback TCP (restarted every 25 cases and on every change of the Codec setting), with or without a user Codec on both; roles: operator X (an actor) and S (the system's root context) on system A, target T, forwarders F1 and F2 and a second watcher W on A or B by the generator (W, when on B, has the same path as X); a script of 1-7 operations from {Tell, Ask answered by an echo / a registered error / not at all, Ping, Watch and Unwatch by X or W (each followed by a Ping on the same ordered channel), ActorContext.PipeTo and Future.PipeTo with 1-2 forwarders out of F1, F2, X (request answered by an echo, a registered error, a plain Go error when T is on the asker's system, or not at all), Scheduler.Once}, payloads of 0-5000 bytes as a registered custom message or as a message only the Codec knows, optionally ending with Kill (poison or not, by X or S, reasons incl. commas and non-ASCII). The script runs twice on the same pair of systems: with every role on A, then with the drawn placement. Oracle (differential, the property's own statement): the ordered observations of every role (received payloads with content hash and sender role, ask results, pongs, OnKill with killer / poison / reason, OnKilled with the terminated role, PipeResult with payload and error class), references reduced to role names, are equal in both runs; no RemotingMessageDecodeFailedEvent. An expectation table (observations per operation) is used only to know when a step has settled; if the all-local run deviates from it the case is inconclusive (harness), never a verdict. Non-trivial = at least one role on the other system. Distinct = hash of the case.",
+		Rule: "two real systems on loopback TCP (restarted every 25 cases and on every change of the Codec setting), with or without a user Codec on both; roles: operator X (an actor) and S (the system's root context) on system A, target T, forwarders F1 and F2 and a second watcher W on A or B by the generator (W, when on B, has the same path as X); a script of 1-7 operations from {Tell, Ask answered by an echo / a registered error / not at all, Ping, Watch and Unwatch by X or W (each followed by a Ping on the same ordered channel), ActorContext.PipeTo and Future.PipeTo with 1-2 forwarders out of F1, F2, X (request answered by an echo, a registered error, a plain Go error when T is on the asker's system, or not at all), Scheduler.Once, a burst of 8 messages to the other system whose registered writer fails (in both runs; only what follows is compared: every encode path shares pooled writers)}, payloads of 0-5000 bytes as a registered custom message or as a message only the Codec knows, optionally ending with Kill (poison or not, by X or S, reasons incl. commas and non-ASCII). The script runs twice on the same pair of systems: with every role on A, then with the drawn placement. Oracle (differential, the property's own statement): the ordered observations of every role (received payloads with content hash and sender role, ask results, pongs, OnKill with killer / poison / reason, OnKilled with the terminated role, PipeResult with payload and error class), references reduced to role names, are equal in both runs; no RemotingMessageDecodeFailedEvent. An expectation table (observations per operation) is used only to know when a step has settled; if the all-local run deviates from it the case is inconclusive (harness), never a verdict. Non-trivial = at least one role on the other system. Distinct = hash of the case.",
 		Assumptions: []string{
 			"a plain Go error is not a wire message: it is generated only as the result of a piped request whose target is local to the asker; error identity is compared by class (nil / *vivid.Error code and message / ErrorException for everything else), which is what the wire carries",
 			"real-time waits are patience: an answered request gets 10 s, a step 12 s to produce its observations; absence of an observation is judged 150 ms after the last step",
@@ -209,7 +209,7 @@ func init() {
 
 	clusterOverlay := []Inject{{RepoRel: "internal/cluster/zz_verif_export.go", Src: "overlay/cluster_export.go.txt"}}
 	registry["C18"] = &Check{
-		Rule: "2-7 real cluster.NodeActor values in a deterministic discrete-event simulation on a virtual clock (package csim: one queue per node, handlers run to completion except inside Ask, per-link FIFO, every message through the library's remoting envelope codec, global math/rand seeded per case): seed layouts (one seed; two seeds listed by all = two self-seeded islands that must merge; mixed: every other node lists a drawn subset), start offsets 0-8 s in any order (a node may start before its seed: first join attempt fails), per-message latencies 0-400 ms and losses from drawn tapes, a fault phase of 0-30 s (+ up to two detection timeouts) with 1-6 faults from {partition into two drawn sides, heal, reset of all connections (in-flight messages dropped), loss on/off, restart of a non-seed node (same address, or - 1 in 4 - a new one: the old address answers nobody any more), crash, graceful leave}; then every partition heals, losses stop and a quiet phase is observed. Regime S: failure-detection timeout longer than the scenario (no timeout can fire), quiet phase 180 s, strict oracle at its end: identical views (id, address, generation, incarnation stamp, status), membership == running nodes, every node computes the smallest running address as leader, exactly one node's last ClusterLeaderChangedEvent says IAmLeader and it is that node, no membership / leader event in the last third. Regime L: timeout 40 s (default), 10 s or 5 s, quiet phase 8 x (timeout + detection period), judged over its second half by sampling every timeout/8: a running node absent from a running node's view in every sample, a dead node listed in every sample and never announced as removed, two nodes computing different leaders in every sample = violations; the transient forms (absent / listed / different in some samples; membership and leader announcements that never stop) are the listed known findings. Both regimes: wherever a restarted node is listed in the window, the entry is its running incarnation's (stamp, address, generation); every node lists itself. Non-trivial = at least two kinds of fault happened, or a join attempt failed, or >= 3 nodes. Distinct = hash of the case.",
+		Rule: "2-7 real cluster.NodeActor values in a deterministic discrete-event simulation on a virtual clock (package csim: one queue per node, handlers run to completion except inside Ask, per-link FIFO, every message through the library's remoting envelope codec, global math/rand seeded per case): seed layouts (one seed; two seeds listed by all = two self-seeded islands that must merge; mixed: every other node lists a drawn subset), start offsets 0-8 s in any order (a node may start before its seed: first join attempt fails), in regime S one case in five with a gossip rate limit of 1-3 messages per second and a burst of 1-2 on every node, per-message latencies 0-400 ms and losses from drawn tapes, a fault phase of 0-30 s (+ up to two detection timeouts) with 1-6 faults from {partition into two drawn sides, heal, reset of all connections (in-flight messages dropped), loss on/off, restart of a non-seed node (same address, or - 1 in 4 - a new one: the old address answers nobody any more), crash, graceful leave}; then every partition heals, losses stop and a quiet phase is observed. Regime S: failure-detection timeout longer than the scenario (no timeout can fire), quiet phase 180 s, strict oracle at its end: identical views (id, address, generation, incarnation stamp, status), membership == running nodes, every node computes the smallest running address as leader, exactly one node's last ClusterLeaderChangedEvent says IAmLeader and it is that node, no membership / leader event in the last third. Regime L: timeout 40 s (default), 10 s or 5 s, quiet phase 8 x (timeout + detection period), judged over its second half by sampling every timeout/8: a running node absent from a running node's view in every sample, a dead node listed in every sample and never announced as removed, two nodes computing different leaders in every sample = violations; the transient forms (absent / listed / different in some samples; membership and leader announcements that never stop) are the listed known findings. Both regimes: wherever a restarted node is listed in the window, the entry is its running incarnation's (stamp, address, generation); every node lists itself. Non-trivial = at least two kinds of fault happened, or a join attempt failed, or >= 3 nodes. Distinct = hash of the case.",
 		Assumptions: []string{
 			"'eventually' is read with a bounded horizon: 180 s (S) or 8 x 1.5 x the detection timeout (L) after the last fault; a violation that needs longer to appear is missed, a convergence that needs longer would be reported - on the unchanged tree none of 16 000 generated cases needed longer",
 			"the simulation replaces the actor runtime and TCP (covered by C01-C15) by their contracts; what the runtime adds (a Tell to an unreachable peer blocks the node for the reconnect back-off, known finding of C14) only delays a node",
@@ -360,7 +360,7 @@ func init() {
 	}
 
 	registry["C11"] = &Check{
-		Rule:        "two real systems on loopback TCP (fresh per case, real clock) with the generator's byte-level proxy between sender and receiver: 1-4 concurrent senders x bursts of 1-600 (2000 in thorough) messages with body sizes from {0,1,2,100,1000,4090,4094..4097,5000,65535,70000, 1 MiB, 4 MiB-1000, 4 MiB-400 (the envelope adds up to ~140 bytes)}, every k-th message an Ask (reply must come back), optionally a burst in the other direction; the proxy re-chunks the sender's byte stream by a drawn plan: frame-exact, 1-byte writes, 2-50 frames coalesced into one write, every frame split at a drawn offset 1-12, fixed chunks of 1-4096 bytes; two further shapes: frames whose announced length is exactly 4 MiB-d for d in 1..8 (the body length is computed with the library's own envelope encoder) alternating with tiny ones, and concurrent first contact (2-6 goroutines released together as the very first traffic towards the peer, sender 0 starting with a 70 KB-2 MiB message followed by tiny ones; also a unit of its own); plus fixed regression shapes incl. a connection that has been idle for 10.6 s. Loss is decided without a timeout oracle: after the burst, fence messages are sent one at a time on the idle link; once one is processed everything before it has been consumed (TCP order); if none arrives and the receiver reported nothing, the case is inconclusive (not counted). Oracle: per sender exactly 0..n-1 in order, byte-identical; every Ask got the reply to its own request; the sender reference seen by the receiver is the sending system; no RemotingMessageDecodeFailedEvent; an idle connection is not torn down by the library. Non-trivial = the proxy made at least one write that ended inside a frame or contained a frame boundary, or the case is a near-limit or concurrent-first-contact one. Distinct = hash of the case.",
+		Rule:        "two real systems on loopback TCP (fresh per case, real clock) with the generator's byte-level proxy between sender and receiver: 1-4 concurrent senders x bursts of 1-600 (2000 in thorough) messages with body sizes from {0,1,2,100,1000,4090,4094..4097,5000,65535,70000, 1 MiB, 4 MiB-1000, 4 MiB-400 (the envelope adds up to ~140 bytes)}, every k-th message an Ask (reply must come back), optionally a burst in the other direction, in one case of three every k-th Tell (k in 1,2,3,7) a message the receiving side's registered reader rejects (it cannot be delivered; everything around it must be, on the same connection); the proxy re-chunks the sender's byte stream by a drawn plan: frame-exact, 1-byte writes, 2-50 frames coalesced into one write, every frame split at a drawn offset 1-12, fixed chunks of 1-4096 bytes; two further shapes: frames whose announced length is exactly 4 MiB-d for d in 1..8 (the body length is computed with the library's own envelope encoder) alternating with tiny ones, and concurrent first contact (2-6 goroutines released together as the very first traffic towards the peer, sender 0 starting with a 70 KB-2 MiB message followed by tiny ones; also a unit of its own); plus fixed regression shapes incl. a connection that has been idle for 10.6 s. Loss is decided without a timeout oracle: after the burst, fence messages are sent one at a time on the idle link; once one is processed everything before it has been consumed (TCP order); if none arrives and the receiver reported nothing, the case is inconclusive (not counted). Oracle: per sender exactly 0..n-1 in order, byte-identical; every Ask got the reply to its own request; the sender reference seen by the receiver is the sending system; no RemotingMessageDecodeFailedEvent; an idle connection is not torn down by the library. Non-trivial = the proxy made at least one write that ended inside a frame or contained a frame boundary, or the case is a near-limit or concurrent-first-contact one. Distinct = hash of the case.",
 		Assumptions: []string{"read boundaries at the receiver are influenced by the proxy's writes (with pauses), not dictated; the oracle does not depend on them", "real-time waits are patience only: a fence that never arrives without any receiver-side event makes the case inconclusive"},
 		Serial:      true,
 		Units: []Unit{
@@ -371,7 +371,7 @@ func init() {
 
 	registry["C14"] = &Check{
 		Level: "fault_enumeration",
-		Rule:  "two real systems on loopback with the generator's fault proxy (fresh per case): (1) a stream of 3-6 frames (bodies 0-1000 bytes) with the connection cut after a byte offset - in the enumeration unit EVERY offset of a fixed 4-frame stream (thorough) or every frame boundary +-2 and the first bytes (quick), in the random unit offsets drawn near boundaries and anywhere; (2) the next 1-5 connection attempts refused against a ReconnectLimit of 0-3 or a negative one (set through the public options struct; documented as 'less than 1 means no retry'); (3) the peer stopped and restarted on the same addresses between bursts; (4) an injected well-framed but undecodable body of 1-5000 bytes before a drawn frame; (4b) an injected well-framed envelope that decodes but cannot be routed (empty / malformed sender address, sender path without a slash, receiver path with blanks or of no actor, malformed receiver address); (5) an injected length prefix above the 4 MiB limit; after every fault the proxy heals and the sender sends again. Oracle: the receiver's sequence is a subsequence of what was sent (no duplicate, no reordering, bodies byte-identical, nothing invented); refused attempts >= limit+1 => exactly one dead letter on the sending side and no delivery, fewer => delivered by a retry and no dead letter; after an undecodable body or an unroutable envelope every real frame of the same connection is delivered; after any fault the link recovers (a probe is delivered within 8 attempts) and every message sent after that is delivered; no message is dead-lettered twice. (6) Tell with the peer unreachable: the caller's goroutine is looked for in the reconnect loop by a stack scan (the property's own observation point). Non-trivial = the cut fell strictly inside a frame, or a retry / refusal / injection / restart happened. Distinct = hash of the case.",
+		Rule:  "two real systems on loopback with the generator's fault proxy (fresh per case): (1) a stream of 3-6 frames (bodies 0-1000 bytes) with the connection cut after a byte offset - in the enumeration unit EVERY offset of a fixed 4-frame stream (thorough) or every frame boundary +-2 and the first bytes (quick), in the random unit offsets drawn near boundaries and anywhere; (2) the next 1-5 connection attempts refused against a ReconnectLimit of 0-3 or a negative one (set through the public options struct; documented as 'less than 1 means no retry'); (3) the peer stopped and restarted on the same addresses between bursts; (4) an injected well-framed but undecodable body of 1-5000 bytes before a drawn frame; (4b) an injected well-framed envelope that decodes but cannot be routed (empty / malformed sender address, sender path without a slash, receiver path with blanks or of no actor, malformed receiver address); (5) an injected length prefix above the 4 MiB limit; (2b, also a unit of its own) two outages of the same peer: the first survived by retrying (1..limit refusals), traffic, then the connection dropped and 1..limit-1 attempts refused - one failed write plus those refusals stay within the limit, so no message may be given up and the last one must arrive; after every fault the proxy heals and the sender sends again. Oracle: the receiver's sequence is a subsequence of what was sent (no duplicate, no reordering, bodies byte-identical, nothing invented); refused attempts >= limit+1 => exactly one dead letter on the sending side and no delivery, fewer => delivered by a retry and no dead letter; after an undecodable body or an unroutable envelope every real frame of the same connection is delivered; after any fault the link recovers (a probe is delivered within 8 attempts) and every message sent after that is delivered; no message is dead-lettered twice. (6) Tell with the peer unreachable: the caller's goroutine is looked for in the reconnect loop by a stack scan (the property's own observation point). Non-trivial = the cut fell strictly inside a frame, or a retry / refusal / injection / restart happened. Distinct = hash of the case.",
 		Assumptions: []string{
 			"frames that the kernel accepted before a cut may be lost (TCP): loss is allowed, only corruption / duplication / reordering is not",
 			"after an invalid length prefix the stream cannot be resynchronised: only no-crash, no corrupted delivery and recovery on a new connection are required",
@@ -380,6 +380,7 @@ func init() {
 		ExhaustiveKey: "connection cut after every byte offset of a fixed 4-frame stream (thorough tier)",
 		Units: []Unit{
 			{Name: "faults", Pkg: "c14", Env: map[string]string{"VERIF_FAILFAST": "1"}, Run: "^TestC14Faults$", QuickChecks: 25, ThoroughChecks: 300, ThoroughShards: 4, CaseFile: true, CrashOracle: "no-crash", QuickTimeout: 20 * time.Minute, ThoroughTimeout: 120 * time.Minute},
+			{Name: "outages", Pkg: "c14", Env: map[string]string{"VERIF_FAILFAST": "1"}, Run: "^TestC14TwoOutages$", QuickChecks: 6, ThoroughChecks: 40, ThoroughShards: 2, CaseFile: true, CrashOracle: "no-crash", QuickTimeout: 20 * time.Minute, ThoroughTimeout: 120 * time.Minute},
 			{Name: "cuts", Pkg: "c14", Run: "^TestC14CutEveryOffset$", ThoroughShards: 8, CaseFile: true, CrashOracle: "no-crash", QuickTimeout: 20 * time.Minute, ThoroughTimeout: 120 * time.Minute},
 			{Name: "tell", Pkg: "c14", Run: "^TestC14TellDoesNotBlock$", CaseFile: true},
 		},
